@@ -107,6 +107,7 @@ func (t *template) layout(ctx context.Context, w io.Writer) error {
 	maxDepth := 100
 	depth := 0
 	var inheritedSlotScope *SlotScope // Slots defined in child templates (as DOM nodes)
+	visited := map[string]bool{filename: true} // Files of the chain so far: naming one again is a cycle
 
 	// Build layout chain and render intermediate templates
 	for {
@@ -161,5 +162,11 @@ func (t *template) layout(ctx context.Context, w io.Writer) error {
 		isFirstTemplate = false
 		delete(data, "layout")
 		filename = t.resolveLayoutPath(layout, filename)
+		if visited[filename] {
+			// A chain that names a file twice never ends: report what the depth limit would report,
+			// without rendering the remaining links (their content can double at every link)
+			return fmt.Errorf("layout chain depth exceeded maximum of %d, possible circular dependency (%s is named a second time)", maxDepth, filename)
+		}
+		visited[filename] = true
 	}
 }
